@@ -32,7 +32,17 @@ FAMILY = {
     "core::slice::<impl [T]>::get_unchecked_mut": "raw-subview-mut", "core::str::<impl str>::get_unchecked_mut": "raw-subview-mut", "core::slice::raw::from_raw_parts_mut": "raw-subview-mut",
     "core::slice::<impl [T]>::get_unchecked": "raw-subview", "core::str::<impl str>::get_unchecked": "raw-subview", "core::slice::raw::from_raw_parts": "raw-subview",
 }
+# a sub-view of a str taken without the char-boundary check, however it is spelled
+FAMILY2 = {
+    "core::str::<impl str>::get_unchecked": "utf8-view", "core::str::<impl str>::get_unchecked_mut": "utf8-view",
+    "core::str::converts::from_utf8_unchecked": "utf8-view", "core::str::converts::from_utf8_unchecked_mut": "utf8-view",
+}
 FAMILY_TABLE = {
+    ("repr::Repr::retain", "utf8-view"): "src_idx..len starts on a char boundary of valid text",
+    ("repr::Repr::truncate_unchecked", "utf8-view"): "..new_len ends on a char boundary (caller contract)",
+    ("repr::Repr::as_str", "utf8-view"): "Repr holds UTF-8", ("repr::Repr::as_str_mut", "utf8-view"): "Repr holds UTF-8",
+    ("repr::heap_buffer::HeapBuffer::as_str", "utf8-view"): "HeapBuffer holds UTF-8",
+    ("LeanString::from_utf8_unchecked", "utf8-view"): "public unsafe fn: caller contract",
     ("repr::Repr::retain", "raw-subview-mut"): "dst slice dst_idx..dst_idx+ch_len inside the unique str view (dst_idx <= src_idx, src_idx + ch_len <= len)",
     ("repr::Repr::retain", "raw-subview"): "src_idx..len within the text",
     ("repr::Repr::as_str_mut", "raw-subview-mut"): "..len within capacity",
@@ -46,9 +56,9 @@ FAMILY_TABLE = {
 def _audited(path, nme):
     if (path, nme) in UNCHECKED_TABLE:
         return UNCHECKED_TABLE[(path, nme)]
-    fam = FAMILY.get(nme)
-    if fam and (path, fam) in FAMILY_TABLE:
-        return FAMILY_TABLE[(path, fam)]
+    for fam in (FAMILY.get(nme), FAMILY2.get(nme)):
+        if fam and (path, fam) in FAMILY_TABLE:
+            return FAMILY_TABLE[(path, fam)]
     return None
 
 
